@@ -264,8 +264,8 @@ PROPS["C11"] = [("kani", "ov_pipes", ["pull::"], ("quick", "thorough"))]
 _PUSH_QUICK = ["push::%s::vk_harness" % m for m in (
     "map", "inspect", "filter", "filter_map", "fanout", "unzip", "demux_var", "flat_map", "flatten", "for_each", "persist",
     "accumulate", "sort", "vec_push", "sink", "sink_compat", "filter_map_async", "flat_map_stream", "flatten_stream", "state_push", "resolve_futures")] + ["pull::send_push", "pull::send_sink"]
-PROPS["C12"] = [("kani", "ov_pipes", _PUSH_QUICK, ("quick",)),
-                ("kani", "ov_pipes", ["push::", "pull::send_push", "pull::send_sink"], ("thorough",))]
+# fold_keyed / reduce_keyed (real std HashMap, one key; ~100 s each) used to be thorough-only; measured: the whole push set takes ~2 min, so quick runs it too
+PROPS["C12"] = [("kani", "ov_pipes", ["push::", "pull::send_push", "pull::send_sink"], ("quick", "thorough"))]
 
 PROPS["C14"] = [("kani", "ov_sink", ["vk_harness"], ("quick", "thorough"))]
 
